@@ -89,17 +89,45 @@ def check_single(case, ev):
     form = S.FORM_BY_ID[case["form"]]
     v, c = case["value"], case["cls"]
     line, spans = S.render(form, case["head"], case["trail"], [v], tuple(case["enc"]), case["lead"], case["tail_ws"])
-    fa, exc = guarded(lambda: FileAnonymizer(anon_pwd=True, anon_ip=False, salt=case["salt"]))
-    if exc is not None:
-        return core.exc_finding(exc, case, "ctor/")
-    out, exc = guarded(core.run_io, fa, line + "\n")
-    if exc is not None:
-        return core.exc_finding(exc, case, "run/")
+    if case.get("context"):
+        # non-ASCII text before the recognised form (a prompt, a description): kept as it is
+        rest = line[len(case["lead"]) :]
+        cut = len(rest) - len(rest.lstrip())  # heads that start with a blank: no double blank after the context
+        delta = len(case["context"]) + 1 - cut
+        line = case["lead"] + case["context"] + " " + rest.lstrip()
+        spans = [(a + delta, b + delta) for a, b in spans]
+    if case.get("via") == "file":
+        import os
+        import shutil
+        import tempfile
+
+        from netconan.anonymize_files import anonymize_files
+
+        d = tempfile.mkdtemp(prefix="vf-c09-")
+        try:
+            with open(os.path.join(d, "in.cfg"), "w", encoding="utf-8", newline="") as fh:
+                fh.write(line + "\n")
+            _, exc = guarded(anonymize_files, os.path.join(d, "in.cfg"), os.path.join(d, "out.cfg"), True, False, salt=case["salt"])
+            if exc is not None:
+                return core.exc_finding(exc, case, "run/")
+            try:
+                out = open(os.path.join(d, "out.cfg"), "rb").read().decode("utf-8")
+            except (OSError, UnicodeDecodeError) as e:
+                return Finding("context/output-file-not-readable-as-utf-8", "%r: %s" % (line, e), case)
+        finally:
+            shutil.rmtree(d, ignore_errors=True)
+    else:
+        fa, exc = guarded(lambda: FileAnonymizer(anon_pwd=True, anon_ip=False, salt=case["salt"]))
+        if exc is not None:
+            return core.exc_finding(exc, case, "ctor/")
+        out, exc = guarded(core.run_io, fa, line + "\n")
+        if exc is not None:
+            return core.exc_finding(exc, case, "run/")
     out = out[:-1] if out.endswith("\n") else out
     classes = S.classify(v) if c != "text" else {"text"}
     amb = len(classes - {"hex"} if "type7" in classes and c == "type7" else classes) > 1
     enc = tuple(case["enc"]) != ("", "") and form.enclose
-    ev.case(case, (c != "text" and not amb) or enc, ["class-" + c, "form-" + form.id] + (["enclosed"] if enc else []) + (["ambiguous"] if amb else []))
+    ev.case(case, (c != "text" and not amb) or enc, ["class-" + c, "form-" + form.id, "via-" + case.get("via", "io")] + (["non-ascii-context"] if case.get("context") else []) + (["enclosed"] if enc else []) + (["ambiguous"] if amb else []))
     lead_ws = line[: len(line) - len(line.lstrip())]
     tail_ws = line[len(line.rstrip()) :]
     if not out.startswith(lead_ws) or not out.endswith(tail_ws) or out[len(lead_ws) : len(out) - len(tail_ws) or None].strip() != out.strip():
@@ -202,6 +230,8 @@ def _case(draw):
         "value": v,
         "cls": c,
         "salt": draw(_salts),
+        "context": draw(st.sampled_from(["caf\u00e9#", "\u00e0", "\u00c5re-gw>", "r\u00e9seau \u0420\u0424", "\u0105\u0119", "\u65e5\u672c"])) if draw(st.integers(0, 3)) == 0 else None,
+        "via": draw(st.sampled_from(["io", "io", "file"])),
     }
 
 
